@@ -60,6 +60,7 @@ package limit
 
 //@ func (*RateLimitState).getLimiterState
 //@   prop C09
+//@   allocates singleRateLimitState
 //@   modifies mapof(state.groupsStateByLimiter), allof(singleRateLimitState.clock), allof(singleRateLimitState.counter), allof(singleRateLimitState.spillover), allof(singleRateLimitState.windowData), allof(singleRateLimitState.windowEndTime), allof(singleRateLimitState.mutex), allof(singleRateLimitState.gW), allof(singleRateLimitState.gCnt), allof(singleRateLimitState.gLastNow), allof(singleRateLimitState.gPass), now
 //@   on return when !atlock(in(requestArgs, state.groupsStateByLimiter)) do result.gW = wsOf(requestArgs)
 //@   ensures[keyed]  result != nil && result.gW == wsOf(requestArgs)
